@@ -850,7 +850,8 @@ impl<'source> CodeGenerator<'source> {
                 }
                 let arg_count = self.compile_call_args(&f.args, 1, None);
                 let local_id = get_local_id(&mut self.filter_local_ids, f.name);
-                self.add(Instruction::ApplyFilter(f.name, arg_count, local_id));
+                // (the arguments can end on a later line, see compile_call)
+                self.add_with_span(Instruction::ApplyFilter(f.name, arg_count, local_id), f.span());
                 self.pop_span();
             }
             ast::Expr::Test(f) => {
@@ -858,7 +859,7 @@ impl<'source> CodeGenerator<'source> {
                 self.compile_expr(&f.expr);
                 let arg_count = self.compile_call_args(&f.args, 1, None);
                 let local_id = get_local_id(&mut self.test_local_ids, f.name);
-                self.add(Instruction::PerformTest(f.name, arg_count, local_id));
+                self.add_with_span(Instruction::PerformTest(f.name, arg_count, local_id), f.span());
                 self.pop_span();
             }
             ast::Expr::GetAttr(g) => {
